@@ -12,7 +12,7 @@ Types and values travel as space separated tokens in prefix form (strings as hex
 
 Ops:
 * `enc <oj|sen|alt|ref> <dev> <flags> <bytesAs> <createKey> <type> <value>` — the tree the encoder
-  (model) / the reference describes; `<dev>` is `-` or letters of `lxyenm` (`Dev` flags in the order
+  (model) / the reference describes; `<dev>` is `-` or letters of `lxyenmo` (`Dev` flags in the order
   of the structure); `<flags>` eight 0/1: tags exact nest omitnil omitempty fullpath indent strict.
   Answers `panic`, `outside` (not in the modelled fragment) or the canonical tree.
 * `recomp <b|-> <createKey> <history> <type> <tree>` — `Recompose(tree, new(type))` on a recomposer that
@@ -131,8 +131,8 @@ def readVal (s : String) : Option GoVal :=
   | _ => none
 
 def readDev (s : String) : Option Dev :=
-  if s.toList.all (fun c => c = 'l' || c = 'x' || c = 'y' || c = 'e' || c = 'n' || c = 'm' || c = '-') then
-    some ⟨s.contains 'l', s.contains 'x', s.contains 'y', s.contains 'e', s.contains 'n', s.contains 'm'⟩
+  if s.toList.all (fun c => c = 'l' || c = 'x' || c = 'y' || c = 'e' || c = 'n' || c = 'm' || c = 'o' || c = '-') then
+    some ⟨s.contains 'l', s.contains 'x', s.contains 'y', s.contains 'e', s.contains 'n', s.contains 'm', s.contains 'o'⟩
   else none
 
 def readOpts (flags bytesAs ck : String) : Option Opts :=
